@@ -13,6 +13,10 @@ sources). Against the abstract model:
   const-class  same for const-class; a site on an array type '[..Lx;' may be attributed to Lx; or omitted (both accepted);
                a site on a primitive array never appears
   class_xref   ClassAnalysis.get_xref_to/from entries of kind REF_NEW_INSTANCE / REF_CLASS_USAGE mirror the above
+Payloads in the middle of the code (xrefgen 'mid' sites) put const-string / new-instance / const-class behind a switch or
+fill-array-data payload. Large-pool part (one shard, a handful of cases): single-DEX models whose pools are padded with
+unreferenced filler entries so that the loaded strings sit on string indices 0x7fff / 0x8000 / .. 0xffff / 0x10000 (jumbo)
+and the instantiated / referenced classes on type indices 0x7fff / 0x8000 / .. 0xffff.
 Shipped part: the same clauses over shipped DEX/APK files (site list read from the raw code units).
 """
 from vf.gen import xrefgen as X
@@ -23,7 +27,9 @@ LEVEL = 'exploration'
 RULE = ('generated: xrefgen model (2..5 classes over 1..4 DEX files; const-string / const-string/jumbo of 10 values, '
         'new-instance / const-class on own, other, other-DEX, external and array types, other type users as noise, '
         'repeated offsets) -> DEX bytes -> Analysis; StringAnalysis / ClassAnalysis / MethodAnalysis xrefs compared with '
-        'the model. shipped: every method of the shipped DEX/APK files. non-trivial = one string value loaded at >=2 '
+        'the model. bodies contain switch / fill-array-data payloads in the middle of the code; one shard analyses a few '
+        'single-DEX models padded to > 0x8000 / 0xffff pool entries with the loaded strings and used types on the index '
+        'boundaries. shipped: every method of the shipped DEX/APK files. non-trivial = one string value loaded at >=2 '
         'offsets and a new-instance or const-class on another class; distinct = model')
 ASSUMPTIONS = ['vf/gen/dexgen.py writes well-formed DEX files; vf/gen/asm.py + dalvik_spec.py give instruction sizes/offsets',
                'same-class new-instance/const-class sites and sites on arrays of classes are accepted listed or omitted',
@@ -143,6 +149,7 @@ def _labels(model, exp):
     if rep:
         labels.add('string-at->=2-offsets')
     labels.add('ndex:%d' % model['ndex'])
+    labels |= X.payload_labels(model, kinds=('str', 'new', 'cls'))
     return sorted(labels), (rep and other)
 
 
@@ -150,11 +157,16 @@ def run_model(ctx, model, record=True):
     model = X.normalize(model)
     case = {'mode': 'model', 'model': model}
     exp = A.exp_from_model(model)
-    datas = [b for (b, _) in X.build(model)]
+    built = X.build(model)
+    datas = [b for (b, _) in built]
     labels, nt = _labels(model, exp)
     if record:
+        if model.get('bulk'):
+            labels = sorted(set(labels) | {'large-pool'} |
+                            {l for l in X.index_labels(model, [df for (_, df) in built])
+                             if l.startswith(('idx:str:', 'idx:new:', 'idx:cls:'))})
         ctx.case(nontrivial=nt, key=repr(model), labels=labels,
-                 sample={'ndex': model['ndex'],
+                 sample={'ndex': model['ndex'], 'bulk': model.get('bulk'),
                          'sites': [[k[0], k[1], o, '%02x' % op, t] for k, v in exp['sites'].items()
                                    for (o, op, kd, t) in v if kd in ('str', 'new', 'cls')][:8]})
     try:
@@ -194,15 +206,26 @@ def run_file(ctx, name):
     check(ctx, exp, dx, vms, case)
 
 
+def _rich(model):
+    """large-pool cases are expensive: keep those with >= 2 const-string, >= 1 jumbo and >= 2 new-instance / const-class sites"""
+    sites = [s for c in model['classes'] for m in c['methods'] if m['code'] for s in m['body']]
+    return (sum(1 for s in sites if s[0] == 'str' and s[1] == 0x1a) >= 2 and any(s[0] == 'str' and s[1] == 0x1b for s in sites)
+            and sum(1 for s in sites if s[0] in ('new', 'cls')) >= 2)
+
+
 def shards(tier, seed):
     n = 12 if tier == 'quick' else 40
-    return [('gen', k) for k in range(n)] + A.file_shards(tier)
+    sh = [('large', k) for k in range(1 if tier == 'quick' else 4)]
+    return sh + [('gen', k) for k in range(n)] + A.file_shards(tier)
 
 
 def run_shard(ctx, shard):
     if shard[0] == 'gen':
         n = 800 if ctx.tier == 'quick' else 2500
         A.collect(ctx, X.models(profile='strings'), run_model, n, salt=shard[1])
+    elif shard[0] == 'large':
+        A.collect(ctx, X.large_models(profile='strings').filter(_rich), run_model, 4 if ctx.tier == 'quick' else 12,
+                  salt=200 + shard[1])
     else:
         for name in shard[1]:
             run_file(ctx, name)
